@@ -231,7 +231,7 @@ Print Assumptions transactions_do_not_interfere.
 (* Nested use.  A Transact / TransactCtx on the transaction's own session
    (NewSqlConnFromSession(s), CachedConn.WithSession(s)) makes no driver call, leaves the outer
    transaction as it is, and the step fails with errCantNestTx; the inner body does not exist in
-   the machine (it is never run: [o_nest] in Check.v).  A transaction begun on the POOL from inside
+   the machine (the executor counts its invocations: [o_nest], compared by [agrees]).  A transaction begun on the POOL from inside
    a body is another transaction whose quanta lie between two quanta of the outer one: all
    theorems above apply to both, for that schedule as for any other. *)
 Theorem nested_transact_is_refused : forall t sc k canc done orc,
